@@ -99,12 +99,26 @@ fn families(quick: bool) -> Vec<LmFamily> {
         name: "S7-zero-bounds-n2m1",
         n: 2,
         m: 1,
-        doms: vec![Dom::Real(0.0, 3.0), Dom::NonNegB(0.0, 4.0), Dom::Real(-2.0, 0.0), Dom::Free, Dom::NonNeg],
+        doms: vec![Dom::Real(0.0, 3.0), Dom::NonNegB(0.0, 4.0), Dom::Real(-2.0, 0.0), Dom::Real(f64::NEG_INFINITY, -1.0), Dom::Real(1.0, f64::INFINITY), Dom::Free, Dom::NonNeg],
         coefs: vec![-1.0, 0.0, 1.0, 2.0],
         rhss: vec![-2.0, 0.0, 1.0],
         rels: vec![Rel::Le, Rel::Ge, Rel::Eq],
         objs: vec![-1.0, 0.0, 1.0],
         senses: vec![Sense::Min, Sense::Max],
+        offsets: vec![0.0],
+        named: false,
+    });
+    // three variables in every order of kinds (free, non-free, free ...): positional bookkeeping of the split columns
+    v.push(LmFamily {
+        name: "S8-n3m1",
+        n: 3,
+        m: 1,
+        doms: vec![Dom::Free, Dom::NonNeg, Dom::Real(-2.0, 3.0)],
+        coefs: vec![-1.0, 0.0, 1.0],
+        rhss: vec![-2.0, 1.0],
+        rels: vec![Rel::Le, Rel::Ge, Rel::Eq],
+        objs: vec![-1.0, 1.0],
+        senses: vec![Sense::Min],
         offsets: vec![0.0],
         named: false,
     });
